@@ -104,8 +104,10 @@ value_reference_list_c = Contract(
     ensures=[('no-matching-child-means-empty',
               "implies(forall(lambda k: tup_tree[2][k][0] not in matched, 0, len(tup_tree[2])), len(result) == 0)")],
     notes='children of the listed kinds, each parsed by its parse_ function')
+NO_RAISE = ('the function does not catch TypeError/ValueError of this constructor call: with type reference and the value of a '
+            'VALUE.REFERENCE child the constructor is assumed not to raise (exception escape is the subject of C02)')
 property_reference_init_c = Contract(
-    O + 'CIMProperty.__init__', trusted=True, raises=INIT_ERR,
+    O + 'CIMProperty.__init__', trusted=True, raises={}, notes=NO_RAISE,
     requires=[('name-from-the-attribute-type-reference', f"name == {A}['NAME'] and type == 'reference'"),
               ('REFERENCECLASS-optional', optional('reference_class', 'REFERENCECLASS')),
               ('CLASSORIGIN-optional', optional('class_origin', 'CLASSORIGIN')),
@@ -118,4 +120,61 @@ CONTRACTS.append(Contract(
              'list_of_matching': value_reference_list_c, 'CIMProperty.__init__': property_reference_init_c},
     opaque=['CIMProperty'],
     ensures=[('a-CIMProperty', 'isinstance(result, CIMProperty)')],
-    raises={'CIMXMLParseError': Raises(), 'TypeError': Raises(), 'ValueError': Raises()}))
+    raises=PARSE_ERR))
+
+# ---- PARAMETER, PARAMETER.REFERENCE, PARAMETER.ARRAY, PARAMETER.REFARRAY
+NOT_EMBEDDED_NO_VALUE = 'embedded_object is False and value is None'
+
+
+def parameter_contract(func, element, required, init_requires, decimal=False, catches=True):
+    init_c = Contract(O + 'CIMParameter.__init__', trusted=True, raises=INIT_ERR if catches else {},
+                      notes='' if catches else NO_RAISE, requires=init_requires)
+    return Contract(
+        P + func, params={'self': TP, 'tup_tree': TNODE},
+        requires=[ARRAYSIZE_IS_DECIMAL] if decimal else [],
+        callees={'check_node': check_node_for(element, required), 'list_of_matching': list_of_matching_c,
+                 'CIMParameter.__init__': init_c},
+        opaque=['CIMParameter'],
+        ensures=[('a-CIMParameter', 'isinstance(result, CIMParameter)')],
+        raises=PARSE_ERR)
+
+
+CONTRACTS.append(parameter_contract(
+    'parse_parameter', 'PARAMETER', ('NAME', 'TYPE'),
+    [('name-and-type-from-the-attributes', f"name == {A}['NAME'] and type == {A}['TYPE']"),
+     ('a-scalar-without-reference-class', 'is_array is False and array_size is None and reference_class is None'),
+     ('not-embedded-no-value', NOT_EMBEDDED_NO_VALUE)]))
+CONTRACTS.append(parameter_contract(
+    'parse_parameter_reference', 'PARAMETER.REFERENCE', ('NAME',),
+    [('name-from-the-attribute-type-reference', f"name == {A}['NAME'] and type == 'reference'"),
+     ('REFERENCECLASS-optional', optional('reference_class', 'REFERENCECLASS')),
+     ('a-scalar', 'is_array is False and array_size is None'),
+     ('not-embedded-no-value', NOT_EMBEDDED_NO_VALUE)], catches=False))
+CONTRACTS.append(parameter_contract(
+    'parse_parameter_array', 'PARAMETER.ARRAY', ('NAME', 'TYPE'),
+    [('name-and-type-from-the-attributes', f"name == {A}['NAME'] and type == {A}['TYPE']"),
+     ('ARRAYSIZE-optional-as-integer', ARRAYSIZE),
+     ('an-array-without-reference-class', 'is_array is True and reference_class is None'),
+     ('not-embedded-no-value', NOT_EMBEDDED_NO_VALUE)], decimal=True))
+CONTRACTS.append(parameter_contract(
+    'parse_parameter_refarray', 'PARAMETER.REFARRAY', ('NAME',),
+    [('name-from-the-attribute-type-reference', f"name == {A}['NAME'] and type == 'reference'"),
+     ('REFERENCECLASS-optional', optional('reference_class', 'REFERENCECLASS')),
+     ('ARRAYSIZE-optional-as-integer', ARRAYSIZE),
+     ('an-array', 'is_array is True'),
+     ('not-embedded-no-value', NOT_EMBEDDED_NO_VALUE)], decimal=True, catches=False))
+
+# ---- METHOD
+method_init_c = Contract(
+    O + 'CIMMethod.__init__', trusted=True, raises=INIT_ERR,
+    requires=[('name-from-the-attribute', f"name == {A}['NAME']"),
+              ('TYPE-is-the-return-type', f"'TYPE' in {A} and return_type == {A}['TYPE']"),
+              ('CLASSORIGIN-optional', optional('class_origin', 'CLASSORIGIN')),
+              ('PROPAGATED-default-false', flavor('propagated', 'PROPAGATED', False))])
+CONTRACTS.append(Contract(
+    P + 'parse_method', params={'self': TP, 'tup_tree': TNODE},
+    callees={'check_node': check_node_for('METHOD', ('NAME',)), 'unpack_boolean': unpack_boolean_c,
+             'list_of_matching': list_of_matching_c, 'CIMMethod.__init__': method_init_c},
+    opaque=['CIMMethod'],
+    ensures=[('a-CIMMethod', 'isinstance(result, CIMMethod)')],
+    raises=PARSE_ERR))
